@@ -99,10 +99,20 @@ def run_job(job, attrs_csv):
         return o_feed_animals(animal_list, ruminants, available_feed, available_grass)
 
     ap.AnimalPopulation.feed_animals = w_feed_animals
+    # every fifth run starts one herd from a configured head count (half as large again as the table's) instead of the table's
+    import pandas as pd
+    stock0 = pd.read_csv("data/no_food_trade/animal_feed_data/FAOSTAT_head_and_slaughter.csv").set_index("iso3")
+    srow0 = stock0.loc["SWZ" if cc == "SWT" and "SWT" not in stock0.index else cc]
+    custom = None
+    if job.get("tid", 0) % 5 == 0:
+        for sp_ in ("pig", "chicken", "milk_sheep", "meat_cattle"):
+            if float(srow0.get(sp_ + "_head", 0)) > 0 and not (cc == "IND" and sp_ == "meat_cattle"):
+                custom = {sp_ + "_head_start": 1.5 * float(srow0[sp_ + "_head"])}
+                break
     try:
         with contextlib.redirect_stdout(io.StringIO()):
             animals, feed_used, grass_used = ap.main(cc, food_series(feed.copy()), food_series(grass.copy()),
-                                                    strat, None, 0, kd)
+                                                    strat, custom, 0, kd)
     finally:
         ap.AnimalSpecies.feed_the_species = orig
         ap.AnimalPopulation.feed_animals = o_feed_animals
@@ -129,7 +139,9 @@ def run_job(job, attrs_csv):
         # target size and baseline slaughter as the requested strategy configures them (species_options.csv), applied to the
         # herd's own initial head count and initial slaughter - not what the simulated object says about itself
         orow = opt_csv.loc[a.animal_type]
-        target_cfg = float(orow["target_population_fraction"]) * float(a.initital_population)
+        # (the starting head count the run is configured with: the table's, or the custom one)
+        head_cfg = float((custom or {}).get(a.animal_type + "_head_start", srow0[a.animal_type + "_head"]))
+        target_cfg = float(orow["target_population_fraction"]) * head_cfg
         base_sl_cfg = float(a.initial_slaughter) * float(orow["change_in_slaughter_rate"])
         attr[a.animal_type] = dict(
             milk=a.animal_type.startswith("milk_"),
